@@ -136,6 +136,8 @@ def run(rep):
         errs = [r for r in rows(b) if r[0].endswith("IncompatibleVersion") or r[0].endswith("InvalidProtocolVersion") or "Version" in r[0]]
         gt = any(any(re.search(r"^True=PartialOrd::gt\(ProtocolVersion::new\(", x) for x in r[2]) for r in rows(b))
         rep.check(gt, "C12-R1", b.def_, "client-refuses-newer", "the client must refuse a negotiated version above what it requested", detail={})
+    else:
+        rep.fail("C12-R1", "aldrin::client_builder::ClientBuilder::connect_with_data", "body", "client handshake body not found (%d candidates); rule fails closed" % len(cb))
 
     # ---- R2 gate agreement ----------------------------------------------------------------------------------
     bd, binfo, bhm = proto.broker_dispatch(prog)
